@@ -187,22 +187,37 @@ def run_stream(cmd, lines):
 
     def work(ch):
         base, ls = ch
-        p = subprocess.run(cmd, input="\n".join(ls) + "\n", capture_output=True, text=True)
         R, O = {}, {}
-        for ln in p.stdout.splitlines():
-            if ln.startswith("R "):
-                _, i, rest = (ln.split(" ", 2) + [""])[:3]
-                R[base + int(i)] = rest
-            elif ln.startswith("O "):
-                _, i, rest = (ln.split(" ", 2) + [""])[:3]
-                O.setdefault(base + int(i), []).append(rest)
-        if p.returncode != 0:
-            # the process died (abort / stack overflow / alloc failure): find how far it got
-            done = max([i - base for i in R] + [-1])
-            nxt = base + done + 1
-            if nxt < base + len(ls):
-                R[nxt] = f"process-died rc={p.returncode}"
-                O.setdefault(nxt, []).append(f"process died (rc={p.returncode}) {p.stderr[-300:]!r}")
+        restarts = 0
+        while ls:
+            p = subprocess.run(cmd, input="\n".join(ls) + "\n", capture_output=True, text=True)
+            got = -1
+            for ln in p.stdout.splitlines():
+                if ln.startswith("R "):
+                    _, i, rest = (ln.split(" ", 2) + [""])[:3]
+                    R[base + int(i)] = rest
+                    got = max(got, int(i))
+                elif ln.startswith("O "):
+                    _, i, rest = (ln.split(" ", 2) + [""])[:3]
+                    O.setdefault(base + int(i), []).append(rest)
+            if p.returncode == 0:
+                break
+            # the process died (abort / stack overflow / alloc failure / third hang): blame the first case without
+            # a result — unless the last reported case was a hang (the watchdog aborts after the third) — and go on
+            # with the cases behind it
+            nxt = got + 1
+            if nxt < len(ls) and not (got >= 0 and R.get(base + got) == "hang"):
+                R[base + nxt] = f"process-died rc={p.returncode}"
+                O.setdefault(base + nxt, []).append(f"process died (rc={p.returncode}) {p.stderr[-300:]!r}")
+                nxt += 1
+            restarts += 1
+            hangs = sum(1 for v in R.values() if v == "hang")
+            base, ls = base + nxt, ls[nxt:]
+            if restarts > 40 or hangs >= 3:
+                # enough evidence from this chunk; do not spend a watchdog period on every further case
+                for j in range(len(ls)):
+                    R[base + j] = "not-run-after-hangs"
+                break
         return R, O
 
     R, O = {}, {}
